@@ -47,13 +47,16 @@ const (
 	ModePerm = realos.ModePerm
 )
 
+//go:norace
 func IsNotExist(err error) bool { return errors.Is(err, ErrNotExist) }
+//go:norace
 func IsExist(err error) bool    { return errors.Is(err, ErrExist) }
 
 // ExitCode is set when the code under test calls os.Exit (trapped: the calling thread panics
 // with ExitPanic so that the harness sees "the process would have exited").
 type ExitPanic struct{ Code int }
 
+//go:norace
 func Exit(code int) { panic(ExitPanic{code}) }
 
 // ---- in-memory file system -----------------------------------------------------------------
@@ -89,6 +92,7 @@ var tmpSeq int
 // Hook, if set, is called after every logged operation (fault injection / crash enumeration).
 var Hook func(op Op)
 
+//go:norace
 func record(op Op) {
 	if Armed {
 		Log = append(Log, op)
@@ -99,9 +103,11 @@ func record(op Op) {
 }
 
 // ResetFS empties the file system and the log.
+//go:norace
 func ResetFS() { files = map[string]*inode{}; Log = nil; Armed = false; Hook = nil; tmpSeq = 0 }
 
 // Snapshot returns a deep copy of the file system (path -> content).
+//go:norace
 func Snapshot() map[string][]byte {
 	m := map[string][]byte{}
 	for p, n := range files {
@@ -111,6 +117,7 @@ func Snapshot() map[string][]byte {
 }
 
 // Restore replaces the file system by a snapshot.
+//go:norace
 func Restore(m map[string][]byte) {
 	files = map[string]*inode{}
 	for p, d := range m {
@@ -120,6 +127,7 @@ func Restore(m map[string][]byte) {
 
 // Apply replays logged operations on a snapshot (crash-state materialisation). cut >= 0 keeps only
 // the first cut bytes of the final operation when that is a write.
+//go:norace
 func Apply(base map[string][]byte, ops []Op, cut int) map[string][]byte {
 	m := map[string][]byte{}
 	for p, d := range base {
@@ -161,6 +169,7 @@ type File struct {
 	app    bool
 }
 
+//go:norace
 func clean(p string) string {
 	for strings.HasPrefix(p, "./") {
 		p = p[2:]
@@ -168,9 +177,12 @@ func clean(p string) string {
 	return p
 }
 
+//go:norace
 func Create(name string) (*File, error) { return OpenFile(name, O_RDWR|O_CREATE|O_TRUNC, 0o666) }
+//go:norace
 func Open(name string) (*File, error)   { return OpenFile(name, O_RDONLY, 0) }
 
+//go:norace
 func OpenFile(name string, flag int, perm FileMode) (*File, error) {
 	name = clean(name)
 	n, ok := files[name]
@@ -194,6 +206,7 @@ func OpenFile(name string, flag int, perm FileMode) (*File, error) {
 	return f, nil
 }
 
+//go:norace
 func CreateTemp(dir, pattern string) (*File, error) {
 	tmpSeq++
 	name := pattern
@@ -208,6 +221,7 @@ func CreateTemp(dir, pattern string) (*File, error) {
 	return OpenFile(name, O_RDWR|O_CREATE|O_EXCL, 0o600)
 }
 
+//go:norace
 func itoa(n int) string {
 	if n == 0 {
 		return "0"
@@ -220,8 +234,10 @@ func itoa(n int) string {
 	return s
 }
 
+//go:norace
 func (f *File) Name() string { return f.name }
 
+//go:norace
 func (f *File) Write(p []byte) (int, error) {
 	if f.closed {
 		return 0, &PathError{Op: "write", Path: f.name, Err: ErrClosed}
@@ -242,8 +258,10 @@ func (f *File) Write(p []byte) (int, error) {
 	return len(p), nil
 }
 
+//go:norace
 func (f *File) WriteString(s string) (int, error) { return f.Write([]byte(s)) }
 
+//go:norace
 func (f *File) Read(p []byte) (int, error) {
 	if f.closed {
 		return 0, &PathError{Op: "read", Path: f.name, Err: ErrClosed}
@@ -256,6 +274,7 @@ func (f *File) Read(p []byte) (int, error) {
 	return n, nil
 }
 
+//go:norace
 func (f *File) Seek(offset int64, whence int) (int64, error) {
 	switch whence {
 	case io.SeekStart:
@@ -268,11 +287,13 @@ func (f *File) Seek(offset int64, whence int) (int64, error) {
 	return int64(f.pos), nil
 }
 
+//go:norace
 func (f *File) Sync() error {
 	record(Op{Kind: OpSync, Path: f.name})
 	return nil
 }
 
+//go:norace
 func (f *File) Truncate(size int64) error {
 	if int64(len(f.node.data)) > size {
 		f.node.data = f.node.data[:size]
@@ -281,6 +302,7 @@ func (f *File) Truncate(size int64) error {
 	return nil
 }
 
+//go:norace
 func (f *File) Close() error {
 	if f.closed {
 		return &PathError{Op: "close", Path: f.name, Err: ErrClosed}
@@ -290,8 +312,10 @@ func (f *File) Close() error {
 	return nil
 }
 
+//go:norace
 func (f *File) Stat() (FileInfo, error) { return memInfo{name: base(f.name), size: int64(len(f.node.data))}, nil }
 
+//go:norace
 func Rename(oldpath, newpath string) error {
 	oldpath, newpath = clean(oldpath), clean(newpath)
 	n, ok := files[oldpath]
@@ -304,6 +328,7 @@ func Rename(oldpath, newpath string) error {
 	return nil
 }
 
+//go:norace
 func Remove(name string) error {
 	name = clean(name)
 	if _, ok := files[name]; !ok {
@@ -314,6 +339,7 @@ func Remove(name string) error {
 	return nil
 }
 
+//go:norace
 func RemoveAll(name string) error {
 	name = clean(name)
 	for p := range files {
@@ -325,6 +351,7 @@ func RemoveAll(name string) error {
 	return nil
 }
 
+//go:norace
 func Stat(name string) (FileInfo, error) {
 	name = clean(name)
 	n, ok := files[name]
@@ -334,8 +361,10 @@ func Stat(name string) (FileInfo, error) {
 	return memInfo{name: base(name), size: int64(len(n.data))}, nil
 }
 
+//go:norace
 func Lstat(name string) (FileInfo, error) { return Stat(name) }
 
+//go:norace
 func ReadFile(name string) ([]byte, error) {
 	name = clean(name)
 	n, ok := files[name]
@@ -345,6 +374,7 @@ func ReadFile(name string) ([]byte, error) {
 	return append([]byte(nil), n.data...), nil
 }
 
+//go:norace
 func WriteFile(name string, data []byte, perm FileMode) error {
 	f, err := OpenFile(name, O_WRONLY|O_CREATE|O_TRUNC, perm)
 	if err != nil {
@@ -354,11 +384,15 @@ func WriteFile(name string, data []byte, perm FileMode) error {
 	return f.Close()
 }
 
+//go:norace
 func MkdirAll(path string, perm FileMode) error { return nil }
+//go:norace
 func Mkdir(path string, perm FileMode) error    { return nil }
+//go:norace
 func TempDir() string                           { return "tmp" }
 
 // List returns the paths inside dir (non-recursive when the fs is flat), sorted.
+//go:norace
 func List(dir string) []string {
 	dir = clean(dir)
 	var out []string
@@ -379,6 +413,7 @@ func List(dir string) []string {
 	return out
 }
 
+//go:norace
 func ReadDir(dir string) ([]DirEntry, error) {
 	var out []DirEntry
 	for _, p := range List(dir) {
@@ -387,6 +422,7 @@ func ReadDir(dir string) ([]DirEntry, error) {
 	return out, nil
 }
 
+//go:norace
 func base(p string) string {
 	if i := strings.LastIndex(p, "/"); i >= 0 {
 		return p[i+1:]
@@ -399,11 +435,17 @@ type memInfo struct {
 	size int64
 }
 
+//go:norace
 func (m memInfo) Name() string       { return m.name }
+//go:norace
 func (m memInfo) Size() int64        { return m.size }
+//go:norace
 func (m memInfo) Mode() FileMode     { return 0o644 }
+//go:norace
 func (m memInfo) ModTime() time.Time { return time.Time{} }
+//go:norace
 func (m memInfo) IsDir() bool        { return false }
+//go:norace
 func (m memInfo) Sys() any           { return nil }
 
 type MemEntry struct {
@@ -412,12 +454,16 @@ type MemEntry struct {
 	Dir bool
 }
 
+//go:norace
 func (e MemEntry) Name() string { return e.N }
+//go:norace
 func (e MemEntry) IsDir() bool  { return e.Dir }
+//go:norace
 func (e MemEntry) Type() fs.FileMode {
 	if e.Dir {
 		return fs.ModeDir
 	}
 	return 0
 }
+//go:norace
 func (e MemEntry) Info() (fs.FileInfo, error) { return memInfo{name: e.N, size: e.S}, nil }
